@@ -1887,13 +1887,34 @@ def hex_char(n):
     """n: BV8 term or int in 0..15 -> ASCII of the lowercase hex digit"""
     if isinstance(n,int): return b'0123456789abcdef'[n]
     return note_allowed(z3.simplify(z3.If(z3.ULT(n,10),n+0x30,n+0x57)),b'0123456789abcdef')
+def _encoding_name(v):
+    """which data_encoding constant is the receiver (HEXLOWER, BASE64, ...)"""
+    d=deref(v); r=repr(d)
+    for n in ('HEXLOWER_PERMISSIVE','HEXLOWER','HEXUPPER','BASE64URL_NOPAD','BASE64URL','BASE64_NOPAD','BASE64_MIME','BASE64','BASE32'):
+        if n in r or (isinstance(d,Opaque) and n in str(d.kind)+str(d.p)): return n
+    return None
 def m_hex_encode(e,run,a,f):
+    enc=_encoding_name(a[0])
+    if enc=='BASE64':
+        c=conc_bytes(byte_list(a[1]))
+        if c is None: raise Unsupported('BASE64.encode of symbolic bytes')
+        import base64 as _b64
+        return mk_string(_b64.b64encode(c).decode())
+    if enc!='HEXLOWER': raise Unsupported('data_encoding::Encoding::encode for '+str(enc)+' '+repr(deref(a[0]))[:60])
     out=[]
     for x in byte_list(a[1]):
         if isinstance(x,int): out+=[hex_char(x>>4),hex_char(x&15)]
         else: out+=[hex_char(z3.LShR(x,4)),hex_char(x&0x0f)]
     return StringO(out)
 def m_hex_decode(e,run,a,f):
+    enc=_encoding_name(a[0])
+    if enc=='BASE64':
+        c=conc_bytes(byte_list(a[1]))
+        if c is None: raise Unsupported('BASE64.decode of symbolic bytes')
+        import base64 as _b64, binascii
+        try: return ok(u8vec(list(_b64.b64decode(c,validate=True))))
+        except (binascii.Error,ValueError): return err(Opaque('DecodeError'))
+    if enc!='HEXLOWER': raise Unsupported('data_encoding::Encoding::decode for '+str(enc)+' '+repr(deref(a[0]))[:60])
     bl=byte_list(a[1])
     if len(bl)%2: return err(Opaque('DecodeError'))
     vals=[]
@@ -2210,3 +2231,29 @@ def register_misc15(E):
 _old_register_all24=register_all
 def register_all(E):
     _old_register_all24(E); register_misc15(E)
+
+# ---- Iterator::flat_map, [T]::binary_search_by (transcribed from core::slice, the version without early exit)
+def m_flat_map(e,run,a,f):
+    it=to_iter(e,run,a[0]); it.adapt.append(('map',a[1])); it.adapt.append(('flatten',None)); return it
+def m_binary_search_by(e,run,a,f):
+    sl=deref(a[0]); fn=a[1]
+    n=len(sl.items) if isinstance(sl,VecO) else None
+    if n is None: raise Unsupported('binary_search_by on '+repr(sl)[:60])
+    def cmp(i):
+        r=deref(e.call_value(run,fn,[Ref(sl,i)]))
+        return r.vname
+    if n==0: return err(Int(64,False,0))
+    size=n; base=0
+    while size>1:
+        half=size//2; mid=base+half
+        if cmp(mid)!='Greater': base=mid
+        size-=half
+    c=cmp(base)
+    if c=='Equal': return ok(Int(64,False,base))
+    return err(Int(64,False,base+(1 if c=='Less' else 0)))
+def register_misc16(E):
+    E.model(r' as Iterator>::flat_map$',m_flat_map)
+    E.model(r'<impl \[.*\]>::binary_search_by$',m_binary_search_by)
+_old_register_all25=register_all
+def register_all(E):
+    _old_register_all25(E); register_misc16(E)
